@@ -223,6 +223,29 @@ func Build(a *ref.Packet) (mq.Packet, error) {
 	return dst, nil
 }
 
+// BuildReplacingWill builds a CONNECT whose will is set twice: first an
+// earlier will with other QoS and retain (a client that re-arms its will
+// before connecting), then - through the ordinary path - the will of a. The
+// final state is a's (last write wins); what the first call left in the flags
+// must not survive (round 10, P1-b).
+func BuildReplacingWill(a *ref.Packet, earlierQoS byte, earlierRetain bool) (mq.Packet, error) {
+	dst := New(int(a.Type))
+	c, ok := dst.(*mq.Connect)
+	if !ok || a.ConnFlags&ref.CFWill == 0 {
+		return Build(a)
+	}
+	w := mq.NewPublish()
+	w.SetTopicName("earlier/will")
+	w.SetPayload([]byte("gone"))
+	w.SetQoS(earlierQoS)
+	w.SetRetain(earlierRetain)
+	c.SetWill(w)
+	if err := apply(dst, a, false); err != nil {
+		return nil, err
+	}
+	return dst, nil
+}
+
 // BuildOnZero applies a's fields to a zero value of the packet type
 // (&mq.Publish{} rather than mq.NewPublish()): a value a program can hold and
 // the constructors never produce.
